@@ -31,7 +31,13 @@ fn main() {
     ts.extend(for_w64s!(lay_table!(Ctx; run_s;)));
     t.extend(for_w128!(lay_table!(Ctx; run;)));
     ts.extend(for_w128s!(lay_table!(Ctx; run_s;)));
-    for e in t.iter().chain(ts.iter()) {
+    let mut tb: Vec<Entry<Ctx>> = vec![];
+    tb.extend(for_w8!(lay_table!(Ctx; run_bits;)));
+    tb.extend(for_w16!(lay_table!(Ctx; run_bits;)));
+    tb.extend(for_w32!(lay_table!(Ctx; run_bits;)));
+    tb.extend(for_w64!(lay_table!(Ctx; run_bits;)));
+    tb.extend(for_w128!(lay_table!(Ctx; run_bits;)));
+    for e in t.iter().chain(ts.iter()).chain(tb.iter()) {
         if o.widths.is_empty() || o.widths.contains(&e.lay.w) {
             (e.run)(&mut c);
         }
